@@ -147,7 +147,7 @@ def end_to_end(scope, na, nb):
         oc["EDIF.identifier"] = "".join(ch if ch.isalnum() else "_" for ch in na)
         top.add_cable(s.Cable(name=nb), position=0)
         top.cables[0].create_wire()
-    elif scope == "copy-added-after-export":
+    elif scope in ("copy-added-after-export", "case-variant-copy-added-after-export"):
         # exported once (identifiers are now recorded), then a copy of each element is renamed and added next to
         # the original; the copy arrives carrying the original's identifier
         x0 = top.create_child(name=na, reference=leaf)
@@ -161,6 +161,9 @@ def end_to_end(scope, na, nb):
         for orig, add in ((x0, top.add_child), (c0, top.add_cable), (p0, top.add_port), (d0, work.add_definition)):
             cp = orig.clone()
             cp.name = nb
+            if scope.startswith("case-variant") and "EDIF.identifier" in cp:
+                # ... spelled in the other letter case (two designs exported separately, parts of one moved into the other)
+                cp["EDIF.identifier"] = cp["EDIF.identifier"].swapcase()
             add(cp)
     elif scope == "refused-adds-under-edif":
         # EDIF-policy netlist: before the export, adds are refused because of their *name* while the identifiers they
@@ -303,6 +306,7 @@ def cases(tier):
         out.append(("e2e", "refused-adds-under-edif", na, nb, "asc"))
     for na, nb in (("Core_A", "Core_B"), ("core_a", "core_b"), ("U1", "u1x"), ("a-B", "a-C"), ("A" * 256, "b")):
         out.append(("e2e", "copy-added-after-export", na, nb, "asc"))
+        out.append(("e2e", "case-variant-copy-added-after-export", na, nb, "asc"))
     # names that begin or end with a blank (an escaped Verilog identifier ends with one)
     for scope in scopes:
         for na, nb in (("u ", "u"), ("u", " u"), ("\\b/s ", "b"), (" ", "a"), ("a  b ", "a b")):
